@@ -1,10 +1,11 @@
 import Gallia.Proofs.Lemmas.ParseUri
+import Gallia.Proofs.Lemmas.Config
 /-! C20 helper lemmas: transport settings written into / read from a URI query -/
 namespace Gallia.Parse
 
 /-! ### transport settings written into a URI -/
 
-/-- a notation that survives `urlencode` unchanged: no whitespace, no `+` -/
+/-- a notation without white space and without `+` (what `urlencode` used to leave unchanged; kept for the corollaries) -/
 structure Spelling.UrlSafe (sp : Spelling) : Prop where
   wsL : sp.wsL = []
   wsR : sp.wsR = []
@@ -12,34 +13,6 @@ structure Spelling.UrlSafe (sp : Spelling) : Prop where
 
 theorem Spelling.UrlSafe.wf {sp : Spelling} (h : sp.UrlSafe) : sp.WF := by
   constructor <;> simp [h.wsL, h.wsR]
-
-theorem digitChar_paramCh : ∀ (up : Bool) (d : Nat), d < 16 → paramCh (digitChar up d) = true := by decide
-
-theorem spellNat_paramCh (sp : Spelling) (n : Nat) : ∀ c ∈ spellNat sp n, paramCh c = true := by
-  intro c hc
-  unfold spellNat at hc
-  simp only [List.mem_append] at hc
-  rcases hc with (hc | hc) | hc
-  · revert hc; cases sp.base <;> cases sp.upper <;> simp [prefixOf] <;> (intro h; rcases h with rfl | rfl <;> decide)
-  · split at hc
-    · simp at hc; subst hc; decide
-    · simp at hc
-  · rw [digitStr_eq] at hc
-    rcases mem_groupUs _ _ c hc with h | rfl
-    · simp only [List.mem_map] at h
-      obtain ⟨d, hd, rfl⟩ := h
-      exact digitChar_paramCh _ d (by have := digs_lt sp n d hd; have := radix_le sp.base; omega)
-    · decide
-
-theorem spell_paramCh (sp : Spelling) (h : sp.UrlSafe) (z : Int) : ∀ c ∈ spell sp z, paramCh c = true := by
-  intro c hc
-  unfold spell signStr at hc
-  simp only [h.wsL, h.wsR, h.plus, List.nil_append, List.append_nil, List.mem_append] at hc
-  rcases hc with hc | hc
-  · split at hc
-    · simp at hc; subst hc; decide
-    · simp at hc
-  · exact spellNat_paramCh sp _ c hc
 
 theorem spell_ne_nil (sp : Spelling) (z : Int) : spell sp z ≠ [] := by
   obtain ⟨c, hc, _⟩ := exists_numChar_spell sp z
@@ -51,132 +24,330 @@ def optArg (k : Str) : Option (Spelling × Int) → Args
 
 def optOK : Option (Spelling × Int) → Prop
   | none => True
-  | some (sp, _) => sp.UrlSafe
+  | some (sp, _) => sp.WF
 
 /-- the query parameters of a DoIP target -/
 def doipArgs (s1 : Spelling) (src : Int) (s2 : Spelling) (tgt : Int) (act ver : Option (Spelling × Int)) : Args :=
   [(kSrcAddr, spell s1 src), (kTargetAddr, spell s2 tgt)] ++ optArg kActivationType act ++ optArg kProtocolVersion ver
 
 theorem doipConfig_args (s1 : Spelling) (src : Int) (s2 : Spelling) (tgt : Int) (act ver : Option (Spelling × Int))
-    (h1 : s1.UrlSafe) (h2 : s2.UrlSafe) (ha : optOK act) (hv : optOK ver) :
+    (h1 : s1.WF) (h2 : s2.WF) (ha : optOK act) (hv : optOK ver) :
     doipConfig (doipArgs s1 src s2 tgt act ver) = some ⟨src, tgt, act.map (·.2), ver.map (·.2)⟩ := by
-  have e1 := autoIntL_spell s1 h1.wf src
-  have e2 := autoIntL_spell s2 h2.wf tgt
+  have e1 := autoIntL_spell s1 h1 src
+  have e2 := autoIntL_spell s2 h2 tgt
   rcases act with _ | ⟨sa, za⟩ <;> rcases ver with _ | ⟨sv, zv⟩
   · simp [doipArgs, optArg, doipConfig, fldWith, lookupS, List.find?, kSrcAddr, kTargetAddr, kActivationType,
       kProtocolVersion, e1, e2, Fld.isBad, Fld.opt]
-  · have e4 := autoIntL_spell sv (Spelling.UrlSafe.wf hv) zv
+  · have e4 := autoIntL_spell sv hv zv
     simp [doipArgs, optArg, doipConfig, fldWith, lookupS, List.find?, kSrcAddr, kTargetAddr, kActivationType,
       kProtocolVersion, e1, e2, e4, Fld.isBad, Fld.opt]
-  · have e3 := autoIntL_spell sa (Spelling.UrlSafe.wf ha) za
+  · have e3 := autoIntL_spell sa ha za
     simp [doipArgs, optArg, doipConfig, fldWith, lookupS, List.find?, kSrcAddr, kTargetAddr, kActivationType,
       kProtocolVersion, e1, e2, e3, Fld.isBad, Fld.opt]
-  · have e3 := autoIntL_spell sa (Spelling.UrlSafe.wf ha) za
-    have e4 := autoIntL_spell sv (Spelling.UrlSafe.wf hv) zv
+  · have e3 := autoIntL_spell sa ha za
+    have e4 := autoIntL_spell sv hv zv
     simp [doipArgs, optArg, doipConfig, fldWith, lookupS, List.find?, kSrcAddr, kTargetAddr, kActivationType,
       kProtocolVersion, e1, e2, e3, e4, Fld.isBad, Fld.opt]
 
-
-theorem autoIntL_spell_safe (sp : Spelling) (h : sp.UrlSafe) (z : Int) : autoIntL (spell sp z) = some z :=
-  autoIntL_spell sp h.wf z
-
-theorem valOK_spell (sp : Spelling) (h : sp.UrlSafe) (z : Int) :
-    (∀ c ∈ spell sp z, paramCh c = true) ∧ spell sp z ≠ [] := ⟨spell_paramCh sp h z, spell_ne_nil sp z⟩
-
-theorem keys_paramCh : ∀ k ∈ [kSrcAddr, kDstAddr, kTargetAddr, kActivationType, kProtocolVersion, kAckTimeout, kIsExtended,
-    kIsFd, kFrameTxtime, kExtAddress, kRxExtAddress, kTxPadding, kRxPadding, kTxDl], ∀ c ∈ k, paramCh c = true := by decide
-
-def valOK (v : Str) : Prop := (∀ c ∈ v, paramCh c = true) ∧ v ≠ []
-
-def knownKeys : List Str := [kSrcAddr, kDstAddr, kTargetAddr, kActivationType, kProtocolVersion, kAckTimeout, kIsExtended,
-    kIsFd, kFrameTxtime, kExtAddress, kRxExtAddress, kTxPadding, kRxPadding, kTxDl]
-
-theorem mem_optArg {k : Str} {o : Option (Spelling × Int)} {kv : Str × Str} (ho : optOK o) (h : kv ∈ optArg k o) :
-    kv.1 = k ∧ valOK kv.2 := by
+theorem mem_optArg {k : Str} {o : Option (Spelling × Int)} {kv : Str × Str} (h : kv ∈ optArg k o) :
+    kv.1 = k ∧ kv.2 ≠ [] := by
   rcases o with _ | ⟨sp, z⟩
   · simp [optArg] at h
   · simp only [optArg, List.mem_cons, List.not_mem_nil, or_false] at h
     subst h
-    exact ⟨rfl, valOK_spell sp ho z⟩
+    exact ⟨rfl, spell_ne_nil sp z⟩
 
-theorem argsOK_intro (args : Args) (hk : ∀ kv ∈ args, kv.1 ∈ knownKeys) (hv : ∀ kv ∈ args, valOK kv.2)
-    (hn : (args.map (·.1)).Nodup) : ArgsOK args :=
-  ⟨fun kv h => keys_paramCh kv.1 (hk kv h), hv, hn⟩
-
-theorem argsOK_doip (s1 : Spelling) (src : Int) (s2 : Spelling) (tgt : Int) (act ver : Option (Spelling × Int))
-    (h1 : s1.UrlSafe) (h2 : s2.UrlSafe) (ha : optOK act) (hv : optOK ver) :
+theorem argsOK_doip (s1 : Spelling) (src : Int) (s2 : Spelling) (tgt : Int) (act ver : Option (Spelling × Int)) :
     ArgsOK (doipArgs s1 src s2 tgt act ver) := by
-  apply argsOK_intro
+  constructor
   · intro kv hkv
     simp only [doipArgs, List.cons_append, List.nil_append, List.mem_cons, List.mem_append] at hkv
     rcases hkv with rfl | rfl | h | h
-    · simp [knownKeys]
-    · simp [knownKeys]
-    · rw [(mem_optArg ha h).1]; simp [knownKeys]
-    · rw [(mem_optArg hv h).1]; simp [knownKeys]
-  · intro kv hkv
-    simp only [doipArgs, List.cons_append, List.nil_append, List.mem_cons, List.mem_append] at hkv
-    rcases hkv with rfl | rfl | h | h
-    · exact valOK_spell s1 h1 src
-    · exact valOK_spell s2 h2 tgt
-    · exact (mem_optArg ha h).2
-    · exact (mem_optArg hv h).2
+    · exact spell_ne_nil s1 src
+    · exact spell_ne_nil s2 tgt
+    · exact (mem_optArg h).2
+    · exact (mem_optArg h).2
   · rcases act with _ | ⟨sa, za⟩ <;> rcases ver with _ | ⟨sv, zv⟩ <;> simp [doipArgs, optArg] <;> decide
 
-/-- the query parameters the HSFZ discoverer writes: addresses in any URL-safe notation, `ack_timeout` in decimal -/
+/-! ### plain `int` fields: pydantic's lax `str -> int` -/
+
+theorem digitChar_eq : ∀ d, d < 10 → Nat.digitChar d = digitChar false d := by decide
+
+/-- the decimal text of the model is `Nat.toDigits 10` -/
+theorem decStr_eq (n : Nat) : decStr n = Nat.toDigits 10 n := by
+  induction n using Nat.strongRecOn with
+  | _ n ih =>
+    unfold decStr
+    rw [digitsLE]
+    by_cases h : n < 10
+    · simp only [h, true_or, if_true, List.reverse_cons, List.reverse_nil, List.nil_append, List.map_cons, List.map_nil]
+      rw [Nat.toDigits_of_lt_base h, digitChar_eq n h]
+    · have h' : ¬ (n < 10 ∨ 10 < 2) := by omega
+      simp only [h', if_false, List.reverse_cons, List.map_append, List.map_cons, List.map_nil]
+      rw [Nat.toDigits_of_base_le (by omega) (by omega), ← ih (n / 10) (by omega), digitChar_eq _ (Nat.mod_lt _ (by omega))]
+      rfl
+
+/-- how a plain integer setting may be written: optional `+`, leading zeros, a `.0…0` suffix, white space around it
+    (pydantic also drops single underscores between digits; that spelling is tied, not proved) -/
+structure LaxSp where
+  wsL : Str := []
+  wsR : Str := []
+  plus : Bool := false
+  zeros : Nat := 0
+  frac : Nat := 0
+  deriving DecidableEq, Repr
+
+def LaxSp.WF (ls : LaxSp) : Prop := (∀ c ∈ ls.wsL, isWsInt c = true) ∧ (∀ c ∈ ls.wsR, isWsInt c = true)
+
+/-- `.000` with `k` zeros (nothing for `k = 0`) -/
+def fracStr (k : Nat) : Str := if k = 0 then [] else '.' :: List.replicate k '0'
+
+def laxBody (ls : LaxSp) (n : Nat) : Str := List.replicate ls.zeros '0' ++ Nat.toDigits 10 n ++ fracStr ls.frac
+
+def laxCore (ls : LaxSp) (z : Int) : Str :=
+  (if z < 0 then ['-'] else if ls.plus then ['+'] else []) ++ laxBody ls z.natAbs
+
+def laxText (ls : LaxSp) (z : Int) : Str := ls.wsL ++ laxCore ls z ++ ls.wsR
+
+theorem trimInt_pad (l core r : Str) (hl : ∀ c ∈ l, isWsInt c = true) (hr : ∀ c ∈ r, isWsInt c = true)
+    (hne : core ≠ []) (hh : ∀ c ∈ core, isWsInt c = false) : trimInt (l ++ core ++ r) = core := by
+  unfold trimInt
+  rw [List.append_assoc, dropWhile_all_append l _ hl]
+  cases core with
+  | nil => exact absurd rfl hne
+  | cons c cs =>
+    have hc := hh c (by simp)
+    simp only [List.cons_append, List.dropWhile_cons, hc, Bool.false_eq_true, if_false]
+    rw [← List.cons_append, List.reverse_append, dropWhile_all_append _ _ (by simpa using hr)]
+    cases hrev : (c :: cs).reverse with
+    | nil => simp at hrev
+    | cons z zs =>
+      have hmem : z ∈ (c :: cs).reverse := by rw [hrev]; simp
+      have hz : isWsInt z = false := hh z (List.mem_reverse.mp hmem)
+      simp only [List.dropWhile_cons, hz, Bool.false_eq_true, if_false]
+      rw [← hrev, List.reverse_reverse]
+
+theorem isDigit_lt {c : Char} (h : c.isDigit = true) : 48 ≤ c.toNat ∧ c.toNat ≤ 57 := by
+  simp only [Char.isDigit, Bool.and_eq_true, decide_eq_true_eq, ge_iff_le, UInt32.le_iff_toNat_le] at h
+  have e : c.toNat = c.val.toNat := rfl
+  rw [e]
+  have h1 := h.1; have h2 := h.2
+  simp at h1 h2
+  omega
+
+theorem isWsInt_false_of_range {c : Char} (h : 33 ≤ c.toNat ∧ c.toNat < 128) : isWsInt c = false := by
+  have h1 : isWs c = false := by
+    cases hw : isWs c with
+    | false => rfl
+    | true =>
+      have := isWs_mem hw
+      simp only [List.mem_cons, List.not_mem_nil, or_false] at this
+      rcases this with rfl | rfl | rfl | rfl | rfl | rfl <;> simp at h
+  have h2 : isUniSpace c = false := by
+    cases hu : isUniSpace c with
+    | false => rfl
+    | true => have := isUniSpace_ge hu; omega
+  simp [isWsInt, h1, h2]
+
+theorem laxBody_chars (ls : LaxSp) (n : Nat) : ∀ c ∈ laxBody ls n, c.isDigit = true ∨ c = '.' := by
+  intro c hc
+  unfold laxBody fracStr at hc
+  simp only [List.mem_append] at hc
+  rcases hc with (hc | hc) | hc
+  · left; rw [(List.mem_replicate.mp hc).2]; decide
+  · left; exact Config.toDigits10_isDigit _ c hc
+  · split at hc
+    · simp at hc
+    · rcases List.mem_cons.mp hc with rfl | hc
+      · right; rfl
+      · left; rw [(List.mem_replicate.mp hc).2]; decide
+
+theorem laxBody_head (ls : LaxSp) (n : Nat) : ∃ b bt, laxBody ls n = b :: bt ∧ b.isDigit = true := by
+  unfold laxBody
+  cases hz : ls.zeros with
+  | zero =>
+    cases hd : Nat.toDigits 10 n with
+    | nil => exact absurd hd Nat.toDigits_ne_nil
+    | cons b bt =>
+      exact ⟨b, bt ++ fracStr ls.frac, by simp, Config.toDigits10_isDigit n b (by rw [hd]; simp)⟩
+  | succ k => exact ⟨'0', List.replicate k '0' ++ Nat.toDigits 10 n ++ fracStr ls.frac, by simp [List.replicate_succ], by decide⟩
+
+theorem laxCore_props (ls : LaxSp) (z : Int) : laxCore ls z ≠ [] ∧ ∀ c ∈ laxCore ls z, isWsInt c = false := by
+  constructor
+  · obtain ⟨b, bt, hb, _⟩ := laxBody_head ls z.natAbs
+    unfold laxCore; rw [hb]; simp
+  · intro c hc
+    unfold laxCore at hc
+    simp only [List.mem_append] at hc
+    rcases hc with hc | hc
+    · split at hc
+      · simp at hc; subst hc; decide
+      · split at hc
+        · simp at hc; subst hc; decide
+        · simp at hc
+    · rcases laxBody_chars ls _ c hc with h | rfl
+      · have := isDigit_lt h
+        exact isWsInt_false_of_range (by omega)
+      · decide
+
+open Gallia.Config in
+theorem skipZeros_zeros (k : Nat) (rest : Str) : skipZeros '0' (List.replicate k '0' ++ rest) = skipZeros '0' rest := by
+  induction k with
+  | zero => rfl
+  | succ k ih =>
+    simp only [List.replicate_succ, List.cons_append, skipZeros]
+    simpa using ih
+
+open Gallia.Config in
+theorem stripLeadingZeros_zeros (k n f : Nat) :
+    stripLeadingZeros (List.replicate k '0' ++ Nat.toDigits 10 n ++ fracStr f) = some (Nat.toDigits 10 n ++ fracStr f) := by
+  have hdig := toDigits10_isDigit n
+  by_cases hn : n = 0
+  · subst hn
+    have e : Nat.toDigits 10 0 = ['0'] := by decide
+    rw [e]
+    have : List.replicate k '0' ++ ['0'] ++ fracStr f = '0' :: (List.replicate k '0' ++ fracStr f) := by
+      have : List.replicate k '0' ++ ['0'] = '0' :: List.replicate k '0' := by
+        rw [← List.replicate_succ', List.replicate_succ]
+      rw [this]; rfl
+    rw [this]
+    simp only [stripLeadingZeros, beq_self_eq_true, if_true]
+    rw [skipZeros_zeros]
+    unfold fracStr
+    split
+    · rfl
+    · simp [skipZeros, isNzDigit]
+  · obtain ⟨c, t, e, h0, _, _, _⟩ := toDigits_head_b 10 (by omega) (by omega) n (by omega)
+    have hc : c.isDigit = true := hdig c (by rw [e]; simp)
+    have hne : c ≠ '0' := by simpa using h0
+    have hnz : isNzDigit c = true := by simp [isNzDigit, hc, hne]
+    have hus : (c == '_') = false := (isDigit_not_special c hc).2.1
+    rw [e]
+    cases k with
+    | zero => simp [stripLeadingZeros, h0, hnz]
+    | succ k =>
+      simp only [List.replicate_succ, List.cons_append, stripLeadingZeros, beq_self_eq_true, if_true]
+      rw [List.append_assoc, skipZeros_zeros]
+      simp [skipZeros, h0, hus, hnz]
+
+open Gallia.Config in
+theorem stripDecimalZeros_frac (n f : Nat) : stripDecimalZeros (Nat.toDigits 10 n ++ fracStr f) = Nat.toDigits 10 n := by
+  have hdig := toDigits10_isDigit n
+  have hdot : ∀ c ∈ Nat.toDigits 10 n, (c != '.') = true := fun c hc => (isDigit_not_special c (hdig c hc)).1
+  unfold fracStr
+  split
+  · simp [stripDecimalZeros, Config.dropWhile_all _ _ hdot]
+  · rename_i hf
+    unfold stripDecimalZeros
+    have h1 : (Nat.toDigits 10 n ++ '.' :: List.replicate f '0').dropWhile (· != '.') = '.' :: List.replicate f '0' := by
+      rw [Gallia.Parse.dropWhile_all_append _ _ hdot]; simp [List.dropWhile]
+    have h2 : (Nat.toDigits 10 n ++ '.' :: List.replicate f '0').takeWhile (· != '.') = Nat.toDigits 10 n :=
+      Gallia.Parse.takeWhile_stop _ _ '.' _ hdot (by decide)
+    simp only [h1, h2]
+    have : (List.replicate f '0').isEmpty = false := by cases f with | zero => exact absurd rfl hf | succ f => rfl
+    simp [this]
+
+open Gallia.Config in
+theorem parseLaxInt_body (body X D : Str) (n : Nat) (b : Char) (bt : Str) (hb : body = b :: bt) (hbm : b ≠ '-') (hbp : b ≠ '+')
+    (hws : ∀ c ∈ body, Config.isWs c = false) (hz : stripLeadingZeros body = some X)
+    (hd : stripUnderscores (stripDecimalZeros X) = D) (hj : jsonNat D = some n) (hD : ∀ t, D ≠ '-' :: t) :
+    parseLaxInt body = some (Int.ofNat n) ∧ parseLaxInt ('+' :: body) = some (Int.ofNat n) ∧
+    parseLaxInt ('-' :: body) = some (-(Int.ofNat n)) := by
+  have hjs : jsonInt D = some (Int.ofNat n) := by
+    unfold jsonInt
+    split
+    · rename_i t; exact absurd rfl (hD t)
+    · simp [hj]
+  have s0 : strip body = body := strip_noWs _ hws
+  have s1 : strip ('+' :: body) = '+' :: body :=
+    strip_noWs _ (by intro x hx; rcases List.mem_cons.mp hx with rfl | hx; decide; exact hws x hx)
+  have s2 : strip ('-' :: body) = '-' :: body :=
+    strip_noWs _ (by intro x hx; rcases List.mem_cons.mp hx with rfl | hx; decide; exact hws x hx)
+  refine ⟨?_, ?_, ?_⟩
+  · unfold parseLaxInt
+    simp only [s0]
+    rw [hb] at hz ⊢
+    simp [hbp, hbm, hz, hd, hjs]
+  · unfold parseLaxInt
+    simp only [s1]
+    rw [hb] at hz ⊢
+    simp [hbp, hbm, hz, hd, hjs]
+  · unfold parseLaxInt
+    simp only [s2]
+    rw [hb] at hz ⊢
+    simp [hbp, hbm, hz, hd, jsonInt, hj]
+
+open Gallia.Config in
+/-- pydantic's lax `str -> int` reads every integer back from its decimal text with optional `+`, leading zeros, `.0…0` -/
+theorem parseLaxInt_core (ls : LaxSp) (z : Int) : parseLaxInt (laxCore ls z) = some z := by
+  obtain ⟨_, _, hu, hj⟩ := laxSteps_decimal z.natAbs
+  obtain ⟨b, bt, hb, hbd⟩ := laxBody_head ls z.natAbs
+  have hbs := isDigit_not_special b hbd
+  have hbm : b ≠ '-' := by simpa using hbs.2.2.1
+  have hbp : b ≠ '+' := by simpa using hbs.2.2.2.1
+  have hws : ∀ c ∈ laxBody ls z.natAbs, Config.isWs c = false := by
+    intro c hc
+    rcases laxBody_chars ls _ c hc with h | rfl
+    · exact (isDigit_not_special c h).2.2.2.2
+    · decide
+  have hD : ∀ t, Nat.toDigits 10 z.natAbs ≠ '-' :: t := by
+    intro t e
+    have := toDigits10_isDigit z.natAbs '-' (by rw [e]; simp)
+    exact absurd this (by decide)
+  have key := parseLaxInt_body (laxBody ls z.natAbs) _ (Nat.toDigits 10 z.natAbs) z.natAbs b bt hb hbm hbp hws
+    (stripLeadingZeros_zeros ls.zeros z.natAbs ls.frac) (by rw [stripDecimalZeros_frac, hu]) hj hD
+  unfold laxCore
+  by_cases hneg : z < 0
+  · simp only [hneg, if_true, List.cons_append, List.nil_append]
+    rw [key.2.2]; congr 1; simp only [Int.ofNat_eq_natCast]; omega
+  · simp only [hneg, if_false]
+    by_cases hp : ls.plus = true
+    · simp only [hp, if_true, List.cons_append, List.nil_append]
+      rw [key.2.1]; congr 1; simp only [Int.ofNat_eq_natCast]; omega
+    · simp only [hp, Bool.false_eq_true, if_false, List.nil_append]
+      rw [key.1]; congr 1; simp only [Int.ofNat_eq_natCast]; omega
+
+/-- a plain `int` setting written in decimal, with an optional `+` and any white space pydantic trims, is read back -/
+theorem plainInt_laxText (ls : LaxSp) (h : ls.WF) (z : Int) : plainInt (laxText ls z) = some z := by
+  unfold plainInt laxText
+  rw [trimInt_pad _ _ _ h.1 h.2 (laxCore_props ls z).1 (laxCore_props ls z).2]
+  exact parseLaxInt_core ls z
+
+theorem plainInt_decStr (n : Nat) : plainInt (decStr n) = some (n : Int) := by
+  have := plainInt_laxText {} ⟨by simp, by simp⟩ (n : Int)
+  have hn : ¬ ((n : Int) < 0) := by omega
+  simpa [laxText, laxCore, laxBody, fracStr, decStr_eq, hn] using this
+
+/-- the query parameters the HSFZ discoverer writes: addresses in any notation, `ack_timeout` in decimal -/
 def hsfzArgs (s1 : Spelling) (src : Int) (s2 : Spelling) (dst : Int) (ack : Option Nat) : Args :=
   [(kSrcAddr, spell s1 src), (kDstAddr, spell s2 dst)] ++ (match ack with | none => [] | some n => [(kAckTimeout, decStr n)])
 
-theorem plainInt_decStr (n : Nat) : plainInt (decStr n) = some (n : Int) := by
-  have hd := decStr_isDigit n
-  have hne := decStr_ne_nil n
-  cases hs : decStr n with
-  | nil => exact absurd hs hne
-  | cons c t =>
-    have hc : isDigit c = true := hd c (by simp [hs])
-    have h1 : c ≠ '-' := by intro e; subst e; revert hc; decide
-    have h2 : c ≠ '+' := by intro e; subst e; revert hc; decide
-    have hall : (c :: t).all isDigit = true := by rw [← hs]; exact List.all_eq_true.mpr hd
-    have hv : decVal (c :: t) = n := by rw [← hs]; exact decVal_decStr n
-    unfold plainInt
-    simp only [splitSign, h1, h2, if_false]
-    simp only [List.all_cons, Bool.and_eq_true] at hall
-    simp [hall.1, hall.2, hv, applySign]
-
 theorem hsfzConfig_args (s1 : Spelling) (src : Int) (s2 : Spelling) (dst : Int) (ack : Option Nat)
-    (h1 : s1.UrlSafe) (h2 : s2.UrlSafe) :
+    (h1 : s1.WF) (h2 : s2.WF) :
     hsfzConfig (hsfzArgs s1 src s2 dst ack) = some ⟨src, dst, ack.map (fun n => (n : Int))⟩ := by
-  have e1 := autoIntL_spell s1 h1.wf src
-  have e2 := autoIntL_spell s2 h2.wf dst
+  have e1 := autoIntL_spell s1 h1 src
+  have e2 := autoIntL_spell s2 h2 dst
   cases ack with
   | none => simp [hsfzArgs, hsfzConfig, fldWith, lookupS, List.find?, kSrcAddr, kDstAddr, kAckTimeout, e1, e2, Fld.isBad, Fld.opt]
   | some n =>
     have e3 := plainInt_decStr n
     simp [hsfzArgs, hsfzConfig, fldWith, lookupS, List.find?, kSrcAddr, kDstAddr, kAckTimeout, e1, e2, e3, Fld.isBad, Fld.opt]
 
-theorem decStr_paramCh (n : Nat) : (∀ c ∈ decStr n, paramCh c = true) ∧ decStr n ≠ [] := by
-  refine ⟨fun c hc => ?_, decStr_ne_nil n⟩
-  have := decStr_isDigit n c hc
-  simp [paramCh, this]
-
-theorem argsOK_hsfz (s1 : Spelling) (src : Int) (s2 : Spelling) (dst : Int) (ack : Option Nat)
-    (h1 : s1.UrlSafe) (h2 : s2.UrlSafe) : ArgsOK (hsfzArgs s1 src s2 dst ack) := by
-  have v1 := valOK_spell s1 h1 src
-  have v2 := valOK_spell s2 h2 dst
+theorem argsOK_hsfz (s1 : Spelling) (src : Int) (s2 : Spelling) (dst : Int) (ack : Option Nat) :
+    ArgsOK (hsfzArgs s1 src s2 dst ack) := by
+  have v1 := spell_ne_nil s1 src
+  have v2 := spell_ne_nil s2 dst
   cases ack with
   | none =>
-    refine ⟨?_, ?_, ?_⟩ <;> simp only [hsfzArgs, List.cons_append, List.nil_append, List.append_nil,
+    refine ⟨?_, ?_⟩ <;> simp only [hsfzArgs, List.cons_append, List.nil_append, List.append_nil,
       List.mem_cons, List.not_mem_nil, or_false, forall_eq_or_imp, forall_eq, List.map_cons, List.map_nil]
-    · exact ⟨keys_paramCh _ (by simp), keys_paramCh _ (by simp)⟩
     · exact ⟨v1, v2⟩
     · decide
   | some n =>
-    refine ⟨?_, ?_, ?_⟩ <;> simp only [hsfzArgs, List.cons_append, List.nil_append, List.append_nil,
+    refine ⟨?_, ?_⟩ <;> simp only [hsfzArgs, List.cons_append, List.nil_append, List.append_nil,
       List.mem_cons, List.not_mem_nil, or_false, forall_eq_or_imp, forall_eq, List.map_cons, List.map_nil]
-    · exact ⟨keys_paramCh _ (by simp), keys_paramCh _ (by simp), keys_paramCh _ (by simp)⟩
-    · exact ⟨v1, v2, decStr_paramCh n⟩
+    · exact ⟨v1, v2, decStr_ne_nil n⟩
     · decide
-
 
 def boolStr (b : Bool) : Str := if b then ['t', 'r', 'u', 'e'] else ['f', 'a', 'l', 's', 'e']
 
@@ -189,50 +360,36 @@ def isotpArgs (fd ext : Bool) (s1 : Spelling) (src : Int) (s2 : Spelling) (dst :
 theorem boolVal_boolStr : ∀ b, boolVal (boolStr b) = some b := by decide
 
 theorem isotpConfig_args (fd ext : Bool) (s1 : Spelling) (src : Int) (s2 : Spelling) (dst : Int)
-    (ea ra tp rp : Option (Spelling × Int)) (h1 : s1.UrlSafe) (h2 : s2.UrlSafe)
+    (ea ra tp rp : Option (Spelling × Int)) (h1 : s1.WF) (h2 : s2.WF)
     (hea : optOK ea) (hra : optOK ra) (htp : optOK tp) (hrp : optOK rp) :
     isotpConfig (isotpArgs fd ext s1 src s2 dst ea ra tp rp) =
       some ⟨src, dst, some ext, some fd, none, ea.map (·.2), ra.map (·.2), tp.map (·.2), rp.map (·.2), none⟩ := by
-  have e1 := autoIntL_spell s1 h1.wf src
-  have e2 := autoIntL_spell s2 h2.wf dst
+  have e1 := autoIntL_spell s1 h1 src
+  have e2 := autoIntL_spell s2 h2 dst
   have b1 := boolVal_boolStr fd
   have b2 := boolVal_boolStr ext
   rcases ea with _ | ⟨s3, z3⟩ <;> rcases ra with _ | ⟨s4, z4⟩ <;> rcases tp with _ | ⟨s5, z5⟩ <;>
     rcases rp with _ | ⟨s6, z6⟩ <;> simp only [optOK] at hea hra htp hrp <;>
     simp [isotpArgs, optArg, isotpConfig, fldWith, lookupS, List.find?, kSrcAddr, kDstAddr, kIsFd, kIsExtended,
-      kFrameTxtime, kExtAddress, kRxExtAddress, kTxPadding, kRxPadding, kTxDl, e1, e2, b1, b2, Fld.isBad, Fld.opt,
-      autoIntL_spell_safe, *]
+      kFrameTxtime, kExtAddress, kRxExtAddress, kTxPadding, kRxPadding, kTxDl, Fld.isBad, Fld.opt,
+      autoIntL_spell, *]
 
-theorem boolStr_valOK : ∀ b, valOK (boolStr b) := by
-  intro b; cases b <;> exact ⟨by decide, by decide⟩
+theorem boolStr_ne_nil : ∀ b, boolStr b ≠ [] := by decide
 
 theorem argsOK_isotp (fd ext : Bool) (s1 : Spelling) (src : Int) (s2 : Spelling) (dst : Int)
-    (ea ra tp rp : Option (Spelling × Int)) (h1 : s1.UrlSafe) (h2 : s2.UrlSafe)
-    (hea : optOK ea) (hra : optOK ra) (htp : optOK tp) (hrp : optOK rp) :
-    ArgsOK (isotpArgs fd ext s1 src s2 dst ea ra tp rp) := by
-  apply argsOK_intro
+    (ea ra tp rp : Option (Spelling × Int)) : ArgsOK (isotpArgs fd ext s1 src s2 dst ea ra tp rp) := by
+  constructor
   · intro kv hkv
     simp only [isotpArgs, List.cons_append, List.nil_append, List.mem_cons, List.mem_append] at hkv
     rcases hkv with rfl | rfl | rfl | rfl | (((h | h) | h) | h)
-    · simp [knownKeys]
-    · simp [knownKeys]
-    · simp [knownKeys]
-    · simp [knownKeys]
-    · rw [(mem_optArg hea h).1]; simp [knownKeys]
-    · rw [(mem_optArg hra h).1]; simp [knownKeys]
-    · rw [(mem_optArg htp h).1]; simp [knownKeys]
-    · rw [(mem_optArg hrp h).1]; simp [knownKeys]
-  · intro kv hkv
-    simp only [isotpArgs, List.cons_append, List.nil_append, List.mem_cons, List.mem_append] at hkv
-    rcases hkv with rfl | rfl | rfl | rfl | (((h | h) | h) | h)
-    · exact boolStr_valOK fd
-    · exact boolStr_valOK ext
-    · exact valOK_spell s1 h1 src
-    · exact valOK_spell s2 h2 dst
-    · exact (mem_optArg hea h).2
-    · exact (mem_optArg hra h).2
-    · exact (mem_optArg htp h).2
-    · exact (mem_optArg hrp h).2
+    · exact boolStr_ne_nil fd
+    · exact boolStr_ne_nil ext
+    · exact spell_ne_nil s1 src
+    · exact spell_ne_nil s2 dst
+    · exact (mem_optArg h).2
+    · exact (mem_optArg h).2
+    · exact (mem_optArg h).2
+    · exact (mem_optArg h).2
   · rcases ea with _ | ⟨s3, z3⟩ <;> rcases ra with _ | ⟨s4, z4⟩ <;> rcases tp with _ | ⟨s5, z5⟩ <;>
       rcases rp with _ | ⟨s6, z6⟩ <;> simp [isotpArgs, optArg] <;> decide
 
